@@ -786,6 +786,8 @@ def _gen_track(rng, ops, cfg, prop, single_key_meter):
             if rng.random() < 0.3:
                 meter = rng.choice(world.METERS)
         syms = _fill(rng, meter, whole_only, full=rng.random() < 0.8)
+        if rng.random() < 0.04:
+            syms = []  # an empty bar: only its time and key signature are written
         ops.append({"op": "bar", "key": key, "meter": list(meter)})
         b = sum(1 for o in ops if o["op"] == "bar") - 1
         whole_rest = rng.random() < 0.07
